@@ -261,7 +261,10 @@ TEvent ==
   /\ R.kind = "PaymentSent" => G1(R.preimage_ok /\ R.hash \in pw.userClaimed)
   \* between two nodes a payment only fails if its recipient failed it: an HTLC held back during
   \* quiescence / splicing is not lost
-  /\ (R.kind = "PaymentFailed" /\ pw.nodes = 2) => G1(R.hash \in pw.userFailed \/ <<R.node, R.hash>> \notin pw.oks)
+  \* (... or the sender itself refused it in the end -- it never went on the wire --, e.g. because it no longer fits
+  \* next to the other payments that had been held: the user is told, nothing is lost)
+  /\ (R.kind = "PaymentFailed" /\ pw.nodes = 2) =>
+        G1(R.hash \in pw.userFailed \/ <<R.node, R.hash>> \notin pw.oks \/ <<R.node, R.hash>> \notin pw.adds)
   /\ IF R.kind = "FundingTransactionReadyForSigning" /\ Known(R.chan)
      THEN LET e == EP(R.chan, R.node) IN
           /\ Learn
@@ -298,10 +301,13 @@ TFin ==
         \* ... and their irrevocable balances add up to its value: each side's own contribution went to itself
         /\ G1(base[e] + base[Peer(e)] = fund[e].value * 1000)
   \* what a user asked to send while the channel was quiescent went out afterwards
-  /\ G1(\A p \in pw.held : p[1] = R.node => p \in pw.adds)
+  /\ G1(\A p \in pw.held : p[1] = R.node => (p \in pw.adds \/ p \in pw.failEv))
   \* every payment of this node reached its end: claimed ones were reported sent
   /\ R.node \notin pw.restarted =>
         G1(\A p \in pw.oks : (p[1] = R.node /\ p[2] \in pw.userClaimed) => p \in pw.sentEv)
+  \* ... and every payment the node accepted and put on the wire came to an end the user was told about
+  /\ (R.node \notin pw.restarted /\ pw.nodes = 2) =>
+        G1(\A p \in pw.oks : (p[1] = R.node /\ p \in pw.adds) => (p \in pw.sentEv \/ p \in pw.failEv))
 
 TOther ==
   /\ l <= Len(Rec) /\ Rec[l].ev \in {"forward", "tick", "persist_mode", "restarted", "hold_sign", "signed", "splice", "cancel", "quiesce", "mined", "msg_other", "sign_error"}
